@@ -16,7 +16,7 @@ class C06(Prop):
     groups = {"bvn": Group("bvn", "From SCK Require Import FlowModel BipModel BvN2 RunBvN.", "RunBvN.bvn_case", "RunBvN.chk_bvn"),
               "pg": Group("pg", "From SCK Require Import FlowModel BipModel BvN2 RunBvN.", "RunBvN.pg_case", "RunBvN.chk_pg")}
     rule = ("convex combinations of random permutation matrices with dyadic weights (compared term by term with the exact-rational model, binary64 arithmetic being exact there), "
-            "uniform 1/k weights, generic float weights, scaled variants and outputs of probabilistic serial / simultaneous eating (checked by the direct oracle: "
+            "uniform 1/k weights, generic float weights, float32/float16/int8/uint8/int16 matrices (pattern-balanced generic values of the narrow dtype), scaled variants and outputs of probabilistic serial / simultaneous eating (checked by the direct oracle: "
             "<= n*n terms, z > 0, permutation matrices, reconstruction within 1e-6, sum of z = row sum), n <= 6; positivity_graph compared on every matrix. "
             "Non-trivial = at least two terms; distinct by input hash")
     trusted_base = ["exact-rational model BvN2.v of bistochastic.py:24-66 on the proved matching model; float rounding and the 1e-9 stopping threshold are modelled only where exact (dyadic inputs)",
@@ -66,6 +66,29 @@ class C06(Prop):
             e = [1024 - bits, 1023 - bits, -1074, -1060, 1000, -1022][i % 6]
             yield dict(entry="birkhoff_von_neumann", family="float_range_edge", X=[[float(Fraction(x) * Fraction(2) ** e) for x in row] for row in X])
 
+        # matrices stored in a narrow dtype whose entries are generic values OF THAT DTYPE; exact balance comes from the pattern (a Latin square of
+        # values with rows and columns permuted, or "d on the diagonal, e elsewhere"), not from a common binary unit
+        for i in range(48 if tier == "quick" else 600):
+            n = rng.randint(2, 5); mdt = ["float32", "float16", "float32", "float32"][i % 4]
+            sc = rng.choice([1, 1, 10, 100]) if mdt == "float32" else 1
+            if i % 6 == 5:
+                d = float(np.array(rng.choice([100, 10, 3]) * 1.0).astype(mdt)); e = float(np.array(rng.choice([0.3, 0.1, 0.7])).astype(mdt))
+                X = [[d if r == c else e for c in range(n)] for r in range(n)]
+            else:
+                v = [float(np.array(rng.random() * sc).astype(mdt)) for _ in range(n)]
+                if i % 3 == 0: v[rng.randrange(n)] = 0.0
+                if not any(v): v[0] = 1.0
+                pr = rng.sample(range(n), n); pc = rng.sample(range(n), n)
+                X = [[v[(pr[r] + pc[c]) % n] for c in range(n)] for r in range(n)]
+            yield dict(entry="birkhoff_von_neumann", family="narrow_pattern", X=X, mdtype=mdt)
+        for i in range(16 if tier == "quick" else 200):      # small integers in narrow integer dtypes
+            n = rng.randint(2, 5); k = rng.randint(1, 4)
+            X = [[0] * n for _ in range(n)]
+            for _ in range(k):
+                p = rng.sample(range(n), n); w = rng.randint(1, 30)
+                for r in range(n): X[r][p[r]] += w
+            yield dict(entry="birkhoff_von_neumann", family="narrow_int", X=[[float(x) for x in row] for row in X], mdtype=["int8", "uint8", "int16", "float16"][i % 4])
+
     def regular01(self, rng, tier):
         # 0/1 matrices with exactly k ones in every row and column (k disjoint permutations of weight 1): common row sum k
         for i in range(24 if tier == "quick" else 400):
@@ -83,7 +106,7 @@ class C06(Prop):
             return np.array(SimultaneousEating(zero_indexed=True).bistochastic(StrictCompleteProfile.of(np.array(case["prof"])), np.array(case["speeds"], dtype=float)))
         if case.get("itype"):
             return lay(np.array(case["X"]).astype(int), case.get("layout"))
-        return lay(np.array(case["X"], dtype=float), case.get("layout"))
+        return lay(np.array(case["X"], dtype=float).astype(case.get("mdtype", "float64")), case.get("layout"))
 
     def run(self, case):
         import socialchoicekit.flow as F
